@@ -511,6 +511,18 @@ Proof.
   eexists. split; [reflexivity|]. unfold lookup_pair; cbn. rewrite <- (pkey_comm U a b). rewrite reg_get_put_same. split; reflexivity.
 Qed.
 
+(* what a successful creation files: the assets as requested, under the key of that set, stamped with the creating operation
+   (the child's own report is compared with this entry on the implementation, monitor (d) of the harness) *)
+Theorem entry_matches_request U s a b s' : inv U s -> step U s (CreatePair a b) = Ok s' ->
+  lookup_pair U s' a b = Some (mkPairE a b (tick s)) /\ lookup_pair U s' b a = Some (mkPairE a b (tick s)) /\
+  In (pkey U a b, mkPairE a b (tick s)) (pairs s') /\ a <> b.
+Proof.
+  intros Hi H. pose proof (step_inv _ _ _ _ Hi H) as (Sp' & _). cbn [step] in H. peel H. peel H. peel H. inversion H; subst; clear H.
+  unfold lookup_pair; cbn [pairs]. rewrite <- (pkey_comm U a b), reg_get_put_same. repeat split.
+  - apply reg_get_In. apply reg_get_put_same.
+  - apply negb_true_iff, Z.eqb_neq in E0. assumption.
+Qed.
+
 (* ---- remove, then create again --------------------------------------------------------------------------------------------------- *)
 Theorem remove_then_recreate_pair U s k e a b x y : inv U s -> In (k, e) (pairs s) ->
   same_set2 (pair_set e) (a, b) -> same_set2 (a, b) (x, y) -> in_universe U x = true -> in_universe U y = true -> x <> y ->
